@@ -18,15 +18,18 @@ func GenRefGraph(t *rapid.T, label string) *GraphCase {
 	n := rapid.IntRange(2, 6).Draw(t, label+"N")
 	names := make([]string, n)
 	leaf := make([]bool, n)
+	alias := make([]bool, n) // a type that is nothing but a reference: @a, @a | @b (may name itself)
 	for i := range names {
 		names[i] = fmt.Sprintf("@t%d", i)
-		leaf[i] = rapid.IntRange(0, 4).Draw(t, fmt.Sprint(label, "Leaf", i)) == 0
+		k := rapid.IntRange(0, 9).Draw(t, fmt.Sprint(label, "Leaf", i))
+		leaf[i] = k <= 1
+		alias[i] = k == 2 || k == 3
 	}
 	var leaves, objects []string
 	for i, nm := range names {
 		if leaf[i] {
 			leaves = append(leaves, nm)
-		} else {
+		} else if !alias[i] {
 			objects = append(objects, nm)
 		}
 	}
@@ -71,6 +74,22 @@ func GenRefGraph(t *rapid.T, label string) *GraphCase {
 	for i, nm := range names {
 		if leaf[i] {
 			g.Types[nm] = &ref.SNode{Kind: ref.SLit, Lit: ref.KNumber, Tok: "1"}
+			gc.Order = append(gc.Order, nm)
+			continue
+		}
+		if alias[i] {
+			a := &ref.SNode{Kind: ref.SRef, Names: []string{pick(fmt.Sprint(label, "Al", i, "A"))}}
+			for k, more := 0, rapid.IntRange(0, 2).Draw(t, fmt.Sprint(label, "AlN", i)); k < more; k++ {
+				nm2 := pick(fmt.Sprint(label, "Al", i, "M", k))
+				dup := false
+				for _, x := range a.Names {
+					dup = dup || x == nm2
+				}
+				if !dup {
+					a.Names = append(a.Names, nm2)
+				}
+			}
+			g.Types[nm] = a
 			gc.Order = append(gc.Order, nm)
 			continue
 		}
